@@ -25,6 +25,7 @@ package http
 //@ func SetContentType
 //@   params w ct
 //@   property C15
+//@   locals h:string suffix:string
 //@   let h = rwHeader(w)
 //@   let h0 = old(ctOf(h))
 //@   requires w != nil
@@ -63,6 +64,7 @@ package http
 //@ func ResponseEncoder
 //@   params ctx w
 //@   property C15
+//@   locals negotiate:func(astring)(http.Encoder,string) accept:string a:any ct:string a#2:any enc:http.Encoder mt:string err:error
 //@   requires w != nil && ctx != nil
 //@   let h = rwHeader(w)
 //@   let h0 = old(ctOf(h))
@@ -91,7 +93,6 @@ package http
 //@   ensures* kept: ct0 != "" ==> ctOf(r.Header) == ct0
 
 //@ func (*unsupportedDecoder).Decode
-//@   params e _
 //@   property C15
 //@   requires e != nil
 //@   ensures* err: result != nil && asSE(result) != 0 && ptr(*goa.ServiceError, asSE(result)).Name == "unsupported_media_type"
@@ -122,6 +123,7 @@ package http
 //@ func ErrorEncoder$1
 //@   params ctx w err
 //@   property C05 C20
+//@   captures encoder:func(context.Context,http.ResponseWriter)http.Encoder formatter:func(ctxcontext.Context,errerror)http.Statuser
 //@   requires w != nil && err != nil && encoder != 0
 //@   requires asSE(err) != 0 ==> allocated(ptr(*goa.ServiceError, asSE(err)))
 //@   requires !(typeIs(err, *goa.ServiceError) && asSE(err) == 0)
@@ -189,6 +191,7 @@ package http
 //@ func (*mux).Vars
 //@   params m r
 //@   property C16 C02
+//@   locals ctx:*chi.Context escaped:bool params:chi.RouteParams vars:map[string]string i:int k:string v:string wildcard:string
 //@   requires m != nil && r != nil && r.URL != nil
 //@   let x = ptr(*chi.Context, chiCtxOf(r.ctx))
 //@   requires r.ctx != nil
